@@ -58,7 +58,11 @@ def expected_map(flat, names, arches):
     return out
 
 
-def doc03_text(doc, names, arches):
+def doc03_text(doc, names, arches, spelling="canon"):
+    """spelling: how package keys are written in the document ("canon" | "rpm" = with the .rpm suffix that
+    parse_nvra accepts); the same raw string is used in the binary tables and in the src table."""
+    if spelling == "rpm":
+        names = {k: v + ".rpm" for k, v in names.items()}
     man = {}
     for e in doc:
         a = arches.get(e["a"], e["a"])
@@ -90,14 +94,14 @@ def replay(case):
             else:
                 from productmd.rpms import Rpms
                 m2 = Rpms()
-                m2.loads(doc03_text(ev["doc"], names, arches))
+                m2.loads(doc03_text(ev["doc"], names, arches, "rpm" if rot % 3 == 2 else "canon"))
                 m = m2
         except (ValueError, TypeError) as e:
             out, exc = "refused", e
         except Exception as e:
             out, exc = type(e).__name__, e
         if out != ev["out"]:
-            if focus in ("C12", "C10"):
+            if focus in ("C12", "C10", "C03"):
                 fails.append("step %d %s: model %s, code %s%s" % (step, _ev(ev), ev["out"], out,
                                                                   " (%s)" % exc if exc is not None else ""))
             return fails
@@ -107,7 +111,7 @@ def replay(case):
             return fails
     exp = expected_map(case["rpms"], names, arches)
     if m.rpms != exp:
-        if focus in ("C12", "C10"):
+        if focus in ("C12", "C10", "C03"):
             fails.append("mapping after %s differs: model %s ; code %s" % ("; ".join(_ev(e) for e in case["hist"]),
                                                                           json.dumps(exp, sort_keys=True), json.dumps(m.rpms, sort_keys=True)))
         return fails
